@@ -601,6 +601,26 @@ def r07_13(run, model):
     run.floor("ensure_instance calls in mono_expr", n, 2)
 
 
+def r07_15(run, model):
+    run.rule("R07.15", "no generic application survives in what is emitted: besides function signatures and bodies, mono collapses the field "
+                       "types of the definitions it keeps (non-generic structs and enums are emitted as they stand) - in `mono`, outside "
+                       "TypeMono::ensure_instance, the struct and enum definitions are rewritten through collapse_type_apps")
+    f = model.fn("mono", MONO)
+    t = S.norm_ws(run.facts.text(MONO, f.body["sp"]))
+    n = 0
+    for what, acc in (("struct", r"struct_def_mut|insert_struct|structs_mut"), ("enum", r"enum_def_mut|insert_enum|enums_mut")):
+        n += 1
+        rewrites = False
+        for loop in S.find(f.body, "For"):
+            lt = S.norm_ws(run.facts.text(MONO, loop["body"]["sp"]))
+            if "collapse_type_apps" in lt and re.search(acc, lt):
+                rewrites = True
+        run.ob("R07.15", f"mono|field types of the retained {what} definitions are collapsed", rewrites, site(MONO, f.node["sp"]),
+               f"a loop in mono() that rewrites {what} definitions through collapse_type_apps: {rewrites}",
+               witness="enum Opt[T] { Some(T), None } struct Holder { v: Opt[int32], n: int32 }: the Go back end panics `generic types not supported in "
+                       "Go backend: ty=TEnum(Opt), args=[TInt32]`")
+
+
 def run(run, model):
     run.try_rule(r07_1, model)
     run.try_rule(r07_2, model, None, "C07")
@@ -614,6 +634,7 @@ def run(run, model):
     run.try_rule(r07_11, model)
     run.try_rule(r07_12, model)
     run.try_rule(r07_13, model)
+    run.try_rule(r07_15, model)
     from rules import c19 as _c19
     run.rule("R07.14", "two instances of a generic enum never share a Go type name for a variant (shared with C19 R19.8: the clash count ranges over the specialised enums that are emitted)")
     run.try_rule(_c19.r19_8, model)
